@@ -151,7 +151,22 @@ func rulePutIsolation(c *Ctx, r *R) {
 			}
 			switch x := in.(type) {
 			case *ssa.Store:
-				if _, isLocal := x.Addr.(*ssa.Alloc); !isLocal {
+				// a local variable, or a field / array element of one (a result struct being filled in): fresh memory
+				addr := x.Addr
+				for {
+					if fa, ok := addr.(*ssa.FieldAddr); ok {
+						addr = fa.X
+						continue
+					}
+					if ia, ok := addr.(*ssa.IndexAddr); ok {
+						if _, isArr := ia.X.Type().Underlying().(*types.Pointer); isArr {
+							addr = ia.X
+							continue
+						}
+					}
+					break
+				}
+				if _, isLocal := addr.(*ssa.Alloc); !isLocal {
 					bad = f.Name() + " stores to " + path(x.Addr)
 				}
 			case *ssa.MapUpdate, *ssa.Send, *ssa.Go:
